@@ -19,6 +19,9 @@ KNOWN_ARC = 'path-arc-huge'
 # proposed in round 4, NOT registered in known_findings.txt (so they are reported as violations until the maintainer decides)
 KNOWN_QUAD = 'stroked-path-huge-quad'
 KNOWN_TORIGIN_EXP = 'transform-origin-dangling-exponent'
+# narrower class for nested markers (red-team report, round 4): used once it is registered; until then a marker bomb that
+# exceeds the time budget is filed under reference-fan-out-exponential, whose registered text names markers
+KNOWN_MARKER = 'marker-expansion-bomb'
 
 # CPU-time budget of one Tree::from_data call: A + B * bytes (microseconds, thread CPU time measured inside the worker).
 # Noise floor measured over the whole corpus (1695 files) with 16 workers on a loaded machine (load average 60):
@@ -280,6 +283,39 @@ def origin_sign(data):
     return False
 
 
+def marker_instances(data):
+    """lower bound of the number of instances of the most instantiated marker: W(m) = sum over the marker-start / -mid / -end
+    attributes that reference m of W(enclosing marker), 1 outside of markers (vertices per path are not counted)"""
+    t = _text(data)
+    stack = []                      # enclosing marker ids (None for other elements)
+    refs = {}                       # marker id -> list of enclosing marker (or None)
+    for tag in re.finditer(r'<(/?)([A-Za-z][A-Za-z0-9:]*)\b([^<>]*?)(/?)>', t):
+        close, name, attrs, selfc = tag.groups()
+        if close:
+            if stack:
+                stack.pop()
+            continue
+        idm = re.search(r'\bid="([^"]*)"', attrs)
+        cur = next((x for x in reversed(stack) if x is not None), None)
+        for r in re.findall(r'\bmarker-(?:start|mid|end)\s*[=:]\s*"?\s*url\(#([^)"]+)\)', attrs):
+            refs.setdefault(r, []).append(cur)
+        if not selfc:
+            stack.append(idm.group(1) if (name == 'marker' and idm) else None)
+    memo = {}
+
+    def W(m, depth):
+        if m is None:
+            return 1
+        if m in memo:
+            return memo[m]
+        if depth > 60:
+            return 1
+        memo[m] = 1                 # cycle guard (recursive markers are skipped by the converter)
+        memo[m] = min(max(sum(W(o, depth + 1) for o in refs.get(m, [])), 1), 10 ** 12)
+        return memo[m]
+    return max([W(m, 0) for m in refs] or [0])
+
+
 def quad_huge(data):
     """a stroke is present and some path data has a quadratic segment (Q / T) and a coordinate of magnitude >= 1e18"""
     t = _text(data)
@@ -512,7 +548,12 @@ def run(ctx):
             return
         reported.add(sig)
         text = "%s on %s [%s]" % (bad, label, stream)
-        if data is not None and ('CPU time' in bad or 'time limit' in bad) and fan_out(data) >= 10000:
+        marker_cls = any(k.get('class') == KNOWN_MARKER for k in ctx.known)
+        if data is not None and marker_cls and ('CPU time' in bad or 'time limit' in bad or 'signal6' in bad or 'signal9' in bad) \
+                and marker_instances(data) >= 10000:
+            # nested markers with >= 10 000 instances of one marker: time, or the worker's 3 GiB address-space limit (abort)
+            ctx.known_or_violation(KNOWN_MARKER, text, replay)
+        elif data is not None and ('CPU time' in bad or 'time limit' in bad) and fan_out(data) >= 10000:
             ctx.known_or_violation(KNOWN_FANOUT, text, replay)
         elif data is not None and ('time limit' in bad or 'CPU time' in bad or ('kurbo' in bad and 'shift left with overflow' in bad)) \
                 and textpath_huge(data):
